@@ -6,6 +6,17 @@
 
 namespace Fastor {
 
+namespace internal {
+// the element type of __m128i/__m256i/__m512i is long long: reading int32 lanes through a plain
+// int32_t* violates strict aliasing (miscompiled at -O2), so go through a may_alias typedef
+#if defined(__GNUC__) || defined(__clang__)
+typedef int32_t __attribute__((__may_alias__)) int32_alias_t;
+#else
+typedef int32_t int32_alias_t;
+#endif
+}
+
+
 
 // AVX512 VERSION
 //-----------------------------------------------------------------------------------------------
@@ -100,8 +111,8 @@ struct SIMDVector<int32_t,simd_abi::avx512> {
 #endif
     }
 
-    FASTOR_INLINE int32_t operator[](FASTOR_INDEX i) const {return reinterpret_cast<const int32_t*>(&value)[i];}
-    FASTOR_INLINE int32_t operator()(FASTOR_INDEX i) const {return reinterpret_cast<const int32_t*>(&value)[i];}
+    FASTOR_INLINE int32_t operator[](FASTOR_INDEX i) const {return reinterpret_cast<const internal::int32_alias_t*>(&value)[i];}
+    FASTOR_INLINE int32_t operator()(FASTOR_INDEX i) const {return reinterpret_cast<const internal::int32_alias_t*>(&value)[i];}
 
     FASTOR_INLINE void set(int32_t num) {
         value = _mm512_set1_epi32(num);
@@ -184,7 +195,7 @@ struct SIMDVector<int32_t,simd_abi::avx512> {
     }
 
     FASTOR_INLINE int32_t minimum() {
-        int32_t *vals = (int32_t*)&value;
+        internal::int32_alias_t *vals = (internal::int32_alias_t*)&value;
         int32_t quan = 0;
         for (FASTOR_INDEX i=0; i<Size; ++i)
             if (vals[i]<quan)
@@ -192,7 +203,7 @@ struct SIMDVector<int32_t,simd_abi::avx512> {
         return quan;
     }
     FASTOR_INLINE int32_t maximum() {
-        int32_t *vals = (int32_t*)&value;
+        internal::int32_alias_t *vals = (internal::int32_alias_t*)&value;
         int32_t quan = 0;
         for (FASTOR_INDEX i=0; i<Size; ++i)
             if (vals[i]>quan)
@@ -235,7 +246,7 @@ struct SIMDVector<int32_t,simd_abi::avx512> {
 };
 
 FASTOR_HINT_INLINE std::ostream& operator<<(std::ostream &os, SIMDVector<int32_t,simd_abi::avx512> a) {
-    const int32_t *value = (int32_t*) &a.value;
+    const internal::int32_alias_t *value = (internal::int32_alias_t*) &a.value;
     os << "["
        << value[0]  << " " << value[1]  << " "
        << value[2]  << " " << value[3]  << " "
@@ -352,7 +363,7 @@ FASTOR_INLINE SIMDVector<int32_t,simd_abi::avx512> abs(const SIMDVector<int32_t,
     out.value = _mm512_abs_epi32(a.value);
 #else
     for (FASTOR_INDEX i=0UL; i<16UL; ++i) {
-       ((int32_t*)&out.value)[i] = std::abs(((int32_t*)&a.value)[i]);
+       ((internal::int32_alias_t*)&out.value)[i] = std::abs(((internal::int32_alias_t*)&a.value)[i]);
     }
 #endif
     return out;
@@ -455,8 +466,8 @@ struct SIMDVector<int32_t,simd_abi::avx> {
 #endif
     }
 
-    FASTOR_INLINE int32_t operator[](FASTOR_INDEX i) const {return reinterpret_cast<const int32_t*>(&value)[i];}
-    FASTOR_INLINE int32_t operator()(FASTOR_INDEX i) const {return reinterpret_cast<const int32_t*>(&value)[i];}
+    FASTOR_INLINE int32_t operator[](FASTOR_INDEX i) const {return reinterpret_cast<const internal::int32_alias_t*>(&value)[i];}
+    FASTOR_INLINE int32_t operator()(FASTOR_INDEX i) const {return reinterpret_cast<const internal::int32_alias_t*>(&value)[i];}
 
     FASTOR_INLINE void set(int32_t num) {
         value = _mm256_set1_epi32(num);
@@ -525,7 +536,7 @@ struct SIMDVector<int32_t,simd_abi::avx> {
     }
 
     FASTOR_INLINE int32_t minimum() {
-        int32_t *vals = (int32_t*)&value;
+        internal::int32_alias_t *vals = (internal::int32_alias_t*)&value;
         int32_t quan = 0;
         for (FASTOR_INDEX i=0; i<Size; ++i)
             if (vals[i]<quan)
@@ -533,7 +544,7 @@ struct SIMDVector<int32_t,simd_abi::avx> {
         return quan;
     }
     FASTOR_INLINE int32_t maximum() {
-        int32_t *vals = (int32_t*)&value;
+        internal::int32_alias_t *vals = (internal::int32_alias_t*)&value;
         int32_t quan = 0;
         for (FASTOR_INDEX i=0; i<Size; ++i)
             if (vals[i]>quan)
@@ -567,7 +578,7 @@ struct SIMDVector<int32_t,simd_abi::avx> {
 };
 
 FASTOR_HINT_INLINE std::ostream& operator<<(std::ostream &os, SIMDVector<int32_t,simd_abi::avx> a) {
-    const int32_t *value = (int32_t*) &a.value;
+    const internal::int32_alias_t *value = (internal::int32_alias_t*) &a.value;
     os << "[" << value[0] <<  " " << value[1] << " " << value[2] << " " << value[3]
        << " " << value[4] <<  " " << value[5] << " " << value[6] << " " << value[7] << "]\n";
     return os;
@@ -775,8 +786,8 @@ struct SIMDVector<int32_t,simd_abi::sse> {
 #endif
     }
 
-    FASTOR_INLINE int32_t operator[](FASTOR_INDEX i) const {return reinterpret_cast<const int32_t*>(&value)[i];}
-    FASTOR_INLINE int32_t operator()(FASTOR_INDEX i) const {return reinterpret_cast<const int32_t*>(&value)[i];}
+    FASTOR_INLINE int32_t operator[](FASTOR_INDEX i) const {return reinterpret_cast<const internal::int32_alias_t*>(&value)[i];}
+    FASTOR_INLINE int32_t operator()(FASTOR_INDEX i) const {return reinterpret_cast<const internal::int32_alias_t*>(&value)[i];}
 
     FASTOR_INLINE void set(int32_t num) {
         value = _mm_set1_epi32(num);
@@ -845,7 +856,7 @@ struct SIMDVector<int32_t,simd_abi::sse> {
     }
 
     FASTOR_INLINE int32_t minimum() {
-        int32_t *vals = (int32_t*)&value;
+        internal::int32_alias_t *vals = (internal::int32_alias_t*)&value;
         int32_t quan = 0;
         for (FASTOR_INDEX i=0; i<Size; ++i)
             if (vals[i]<quan)
@@ -853,7 +864,7 @@ struct SIMDVector<int32_t,simd_abi::sse> {
         return quan;
     }
     FASTOR_INLINE int32_t maximum() {
-        int32_t *vals = (int32_t*)&value;
+        internal::int32_alias_t *vals = (internal::int32_alias_t*)&value;
         int32_t quan = 0;
         for (FASTOR_INDEX i=0; i<Size; ++i)
             if (vals[i]>quan)
@@ -875,7 +886,7 @@ struct SIMDVector<int32_t,simd_abi::sse> {
 };
 
 FASTOR_HINT_INLINE std::ostream& operator<<(std::ostream &os, SIMDVector<int32_t,simd_abi::sse> a) {
-    const int32_t *value = (int32_t*) &a.value;
+    const internal::int32_alias_t *value = (internal::int32_alias_t*) &a.value;
     os << "[" << value[0] <<  " " << value[1] << " " << value[2] << " " << value[3] << "]\n";
     return os;
 }
